@@ -3,17 +3,18 @@ module verif/harness
 go 1.26.8
 
 require (
+	github.com/aukilabs/go-tooling v0.16.2
 	github.com/aukilabs/hagall v0.0.0
 	github.com/aukilabs/hagall-common v0.2.2
 	github.com/ethereum/go-ethereum v1.14.13
 	github.com/prometheus/client_golang v1.20.5
 	golang.org/x/crypto v0.36.0
+	golang.org/x/net v0.38.0
 	google.golang.org/protobuf v1.36.2
 	pgregory.net/rapid v1.3.0
 )
 
 require (
-	github.com/aukilabs/go-tooling v0.16.2 // indirect
 	github.com/beorn7/perks v1.0.1 // indirect
 	github.com/cespare/xxhash/v2 v2.3.0 // indirect
 	github.com/golang-jwt/jwt/v4 v4.5.2 // indirect
@@ -27,7 +28,6 @@ require (
 	github.com/segmentio/encoding v0.4.1 // indirect
 	go.opentelemetry.io/otel v1.33.0 // indirect
 	go.opentelemetry.io/otel/trace v1.33.0 // indirect
-	golang.org/x/net v0.38.0 // indirect
 	golang.org/x/sys v0.31.0 // indirect
 )
 
